@@ -39,7 +39,7 @@ def disabled_mask(rng, placement, n_enabled):
 
 
 def gen_enum(rng, idx, n_enabled, placement, generics, kinds, robust=False):
-    """generics in {"none", "T", "TK", "TU"}"""
+    """generics in {"none", "T", "TW", "TK", "TU"}"""
     name = "E%d" % idx
     mask = disabled_mask(rng, placement, n_enabled)
     variants = []
@@ -47,7 +47,7 @@ def gen_enum(rng, idx, n_enabled, placement, generics, kinds, robust=False):
         kind = rng.choice(kinds)
         nf = 0 if kind == "unit" else rng.choice([1, 1, 2, 3])
         pool = list(PAYLOADS)
-        if generics in ("T", "TK", "TU"):
+        if generics in ("T", "TW", "TK", "TU"):
             pool += ["T", "T", "T"]
         if generics == "TK":
             pool += ["Arr<K>", "Arr<K>"]
@@ -64,7 +64,7 @@ def gen_enum(rng, idx, n_enabled, placement, generics, kinds, robust=False):
                                 '#[strum(message = "m")]', '#[strum(props(a = "b"))]'])
         variants.append(dict(ident="V%d" % vi, kind=kind, tys=tys, disabled=dis, extra=extra))
     # every type parameter must be used by some variant (rustc E0392)
-    want = {"none": [], "T": ["T"], "TK": ["T"], "TU": ["T", "U"]}[generics]
+    want = {"none": [], "T": ["T"], "TW": ["T"], "TK": ["T"], "TU": ["T", "U"]}[generics]
     for g in want:
         flat = [t for v in variants for t in v["tys"]]
         if g in flat:
@@ -83,6 +83,7 @@ def gen_enum(rng, idx, n_enabled, placement, generics, kinds, robust=False):
 
 GEN_DECL = {
     "none": ("", ""),
+    "TW": ("<T> where T: Default", "<{0}>"),
     "T": ("<T: Default>", "<{0}>"),
     "TK": ("<T: Default, const K: usize>", "<{0}, 3>"),
     "TU": ("<T: Default, U: Default>", "<{0}, {1}>"),
@@ -152,7 +153,7 @@ def generate(rng, seed, size):
     for (n, pl) in combos:
         if len(enums) >= target - 4:
             break
-        generics = rng.choice(["none", "none", "none", "T", "TK", "TU"])
+        generics = rng.choice(["none", "none", "none", "T", "TW", "TK", "TU"])
         kinds = rng.choice(kinds_opts)
         if robust:
             # conservative shapes only: no generics, unit / one-field tuple variants
@@ -164,7 +165,8 @@ def generate(rng, seed, size):
         idx += 1
     # a few larger enums
     # larger enums, including sizes around integer-width boundaries
-    for n in ([] if robust else ([13, 21, 33, 64, 127, 128, 255, 256, 257] if size != "small" else [13, 33])):
+    extra_sizes = [] if robust else sorted(rng.sample(range(9, 300), 3 if size != "small" else 1))
+    for n in ([] if robust else ([13, 21, 33, 64, 127, 128, 255, 256, 257] if size != "small" else [13, 33])) + extra_sizes:
         enums.append(gen_enum(rng, idx, n, rng.choice(["none", "random", "alternating"] if n < 100 else ["none", "random", "middle"]), "none", ["unit", "unit", "tuple"] if n < 100 else ["unit"]))
         idx += 1
     # explicit discriminants on all-unit enums (iteration order is declaration order, whatever the values)
